@@ -93,6 +93,8 @@ type Case struct {
 	GCMPos int    `json:"gcm_pos,omitempty"`
 	// kind cert: what sits in EncryptedKey/KeyInfo/X509Data/X509Certificate
 	Cert string `json:"cert,omitempty"` // match | match-wrapped | sp2 | attacker | rsa1024 | ec | garbage | empty | notb64 | truncated
+	// CertSib: another X509Data child next to the certificate ("" | issuerserial-before | issuerserial-after | ski-before | ski-after | subjectname-before | secondcert-match-after)
+	CertSib string `json:"cert_sib,omitempty"`
 	// kind mut
 	Muts []Mut `json:"muts,omitempty"`
 	// kind xml
@@ -385,6 +387,41 @@ func (c Case) build() (*tree, error) {
 				x.SetText(b[:len(b)/2])
 			default:
 				return nil, fmt.Errorf("unknown cert variant")
+			}
+			if c.CertSib != "" {
+				xd := x.Parent()
+				var sib *etree.Element
+				mk := func(local string) *etree.Element {
+					e := etree.NewElement(local)
+					e.Space = x.Space
+					return e
+				}
+				switch {
+				case strings.HasPrefix(c.CertSib, "issuerserial"):
+					sib = mk("X509IssuerSerial")
+					in := mk("X509IssuerName")
+					in.SetText("CN=sp.example.com,O=verif")
+					sn := mk("X509SerialNumber")
+					sn.SetText("1005")
+					sib.AddChild(in)
+					sib.AddChild(sn)
+				case strings.HasPrefix(c.CertSib, "ski"):
+					sib = mk("X509SKI")
+					sib.SetText("MTIzNDU2Nzg5MDEyMzQ1Njc4OTA=")
+				case strings.HasPrefix(c.CertSib, "subjectname"):
+					sib = mk("X509SubjectName")
+					sib.SetText("CN=sp.example.com,O=verif")
+				case strings.HasPrefix(c.CertSib, "secondcert-match"):
+					sib = mk("X509Certificate")
+					sib.SetText(certText("sp"))
+				}
+				if sib != nil {
+					if strings.HasSuffix(c.CertSib, "-before") {
+						xd.InsertChildAt(x.Index(), sib)
+					} else {
+						xd.AddChild(sib)
+					}
+				}
 			}
 		}
 	}
@@ -713,7 +750,7 @@ func (c Case) describe() string {
 	case "gcm":
 		s += fmt.Sprintf(" op=%s pos=%d", c.GCMOp, c.GCMPos)
 	case "cert":
-		s += " embedded-cert=" + c.Cert
+		s += " embedded-cert=" + c.Cert + " x509data-sibling=" + c.CertSib
 	case "mut":
 		s += fmt.Sprintf(" muts=%v", c.Muts)
 	case "xml":
@@ -994,7 +1031,8 @@ func check(c Case) pbt.Result {
 				cl = append(cl, "dont-care:cert-unparseable")
 				res.Classes = cl
 			}
-			if mismatch && realCert && len(c.Muts) == 0 && (c.KeyKind == "rsa-ptr" || c.KeyKind == "rsa-other") {
+			// two certificates of which one matches: the property does not say which one counts
+			if mismatch && realCert && c.CertSib != "secondcert-match-after" && len(c.Muts) == 0 && (c.KeyKind == "rsa-ptr" || c.KeyKind == "rsa-other") {
 				cl = append(cl, "must-reject:cert-mismatch")
 				res.Classes = cl
 				if err == nil {
@@ -1426,6 +1464,7 @@ func gen(t *rapid.T) Case {
 		c.GCMPos = rapid.IntRange(0, 4000).Draw(t, "gcm-pos")
 	case "cert":
 		c.Cert = rapid.SampledFrom([]string{"match", "match-wrapped", "sp2", "attacker", "rsa1024", "ec", "garbage", "empty", "notb64", "truncated"}).Draw(t, "cert")
+		c.CertSib = rapid.SampledFrom(append([]string{"", "", ""}, certSibs...)).Draw(t, "certsib")
 		if c.Entry != "sp" && rapid.Bool().Draw(t, "rsa-key") {
 			c.KeyKind = rapid.SampledFrom([]string{"rsa-ptr", "rsa-other"}).Draw(t, "rsa-kind")
 		}
@@ -1563,8 +1602,24 @@ func enumGCM(_ string, emit func(Case)) {
 	}
 }
 
+var certSibs = []string{"issuerserial-before", "issuerserial-after", "ski-before", "ski-after", "subjectname-before", "secondcert-match-after"}
+
 // embedded certificate variants x transports x supplied key x entry
 func enumCert(_ string, emit func(Case)) {
+	for _, cert := range []string{"match", "sp2", "attacker", "ec"} {
+		for _, sib := range certSibs {
+			for _, variant := range []string{"decrypt/rsa-ptr", "decrypt/rsa-other", "decrypt-key/rsa-ptr", "sp/nested"} {
+				c := baseCase("cert", "decrypt", "aes128-cbc", "oaep-mgf1p", "sha1", fmt.Sprintf("certsib/%s/%s", cert, sib))
+				c.Cert, c.CertSib = cert, sib
+				p := strings.Split(variant, "/")
+				c.Entry = p[0]
+				if p[0] != "sp" {
+					c.KeyKind = p[1]
+				}
+				emit(c)
+			}
+		}
+	}
 	for _, cert := range []string{"match", "match-wrapped", "sp2", "attacker", "rsa1024", "ec", "garbage", "empty", "notb64", "truncated"} {
 		for _, tr := range []tcombo{{"oaep-mgf1p", "sha1"}, {"oaep-mgf1p", "sha256"}, {"pkcs1", ""}} {
 			for _, b := range []string{"aes128-cbc", "aes128-gcm"} {
